@@ -57,12 +57,12 @@ func (server *SugarDB) getHandlerFuncParams(ctx context.Context, cmd []string, c
 		GetACL:                server.getACL,
 		GetAllCommands:        server.getCommands,
 		GetClock:              server.getClock,
-		Flush:                 server.Flush,
+		Flush:                 server.flush,
 		Randomkey:             server.randomKey,
 		Touchkey:              server.updateKeysInCache,
 		GetObjectFrequency:    server.getObjectFreq,
 		GetObjectIdleTime:     server.getObjectIdleTime,
-		SwapDBs:               server.SwapDBs,
+		SwapDBs:               server.swapDBs,
 		GetServerInfo:         server.GetServerInfo,
 		DeleteKey: func(ctx context.Context, key string) error {
 			verifPoint("ks.deleteKey")
